@@ -109,7 +109,8 @@ def _requirements(tier):
         req[f"judged:{kind}"] = 300 * k
         req[f"sharp:{kind}"] = 8 * k
         req[f"label:{kind}"] = 8 * k
-    req.update({"long-step:event:node": 40 * k, "long-step:event:apside": 40 * k, "long-step:11h": 2 * k, "long-step:5h": 2 * k})
+    req.update({"long-step:event:node": 40 * k, "long-step:event:apside": 40 * k, "long-step:11h": 2 * k, "long-step:5h": 2 * k,
+                "fixed-frame-ephem:label:terminator": 60 * k, "fixed-frame-ephem:label:apside": 60 * k})
     for p in ("Kepler", "J2", "Sgp4", "KeplerNum", "Ephem"):
         req[f"prop:{p}"] = 6 * k
     req.update({
@@ -733,11 +734,63 @@ def long_step_case(ctx, job, idx, rng, st):
         change = any((x > 0) != (y > 0) for x, y in zip(vals, vals[1:]))
         ctx.expect(change, f"C10/event-not-at-sign-change-{kind}-long-step", dict(w, event=str(p.date), info=p.event.info, g_around=vals, offsets_us=[-6, -3, 0, 3, 6]),
                    f"{p.event.info} at {p.date} with a {step_h} h sampling step: the watched quantity does not change sign within +-6 us: {vals}")
+    fixed_frame_labels(ctx, w, orb, rng)
+
+
+def fixed_frame_labels(ctx, w, orb, rng):
+    """The same high orbit tabulated and HELD IN AN EARTH-FIXED FRAME (a ground-track product), iterated with terminator, node
+    and apside listeners: each label must be the direction in which the watched quantity crosses zero, evaluated here on the
+    inertial trajectory two seconds before and after the event (cos(Sun, satellite), z, r.v do not depend on the axes)."""
+    from beyond.dates import timedelta
+    from beyond.env.solarsystem import get_body
+    from beyond.propagators import listeners as L
+
+    fixed = rng.choice(["ITRF", "PEF"])
+    try:
+        eph = orb.ephem(stop=timedelta(days=2), step=timedelta(minutes=10))
+        eph.frame = fixed
+        stream = list(eph.iter(listeners=[L.TerminatorListener(), L.NodeListener(frame=fixed) if rng.random() < 0.5 else L.NodeListener(), L.ApsideListener()]))
+    except Exception as exc:
+        ctx.violation("C10/iteration-raises-Ephem", dict(w, held_in=fixed, exc=repr(exc)), f"ephemeris held in {fixed}: {exc!r}")
+        return
+    sun = get_body("Sun")
+    ctx.count("fixed-frame-ephem:streams")
+
+    def g(kind, date):
+        c = probe.arr(orb.propagate(date).copy(form="cartesian", frame="EME2000"))
+        if kind == "terminator":
+            s_ = probe.arr(sun.propagate(date).copy(frame="EME2000", form="cartesian"))[:3]
+            return float(c[:3] @ s_) / float(np.linalg.norm(s_) * np.linalg.norm(c[:3]))
+        return float(c[2]) if kind == "node" else float(c[:3] @ c[3:])
+
+    for p in stream:
+        if p.event is None:
+            continue
+        info = p.event.info
+        kind = "terminator" if "Terminator" in info else "node" if "Node" in info else "apside" if "apsis" in info else None
+        if kind is None or (kind == "node" and fixed != "EME2000" and False):
+            continue
+        if p.date - eph.start < timedelta(seconds=30) or eph.stop - p.date < timedelta(seconds=30):
+            continue
+        if kind == "node":
+            continue  # the node of an Earth-fixed frame is not the inertial one (polar motion, precession): labels of C10's streams job
+        before, after = g(kind, p.date - timedelta(seconds=2)), g(kind, p.date + timedelta(seconds=2))
+        if (before > 0) == (after > 0):
+            ctx.count("fixed-frame-ephem:no-sign-change-within-2s (sharpness is judged by the streams job)")
+            continue
+        up = after > before
+        exp = {"terminator": ("Day Terminator", "Night Terminator"), "apside": ("Periapsis", "Apoapsis")}[kind][0 if up else 1]
+        ctx.count("fixed-frame-ephem:label:" + kind)
+        ctx.expect(info == exp, f"C10/label-{kind}-ephemeris-held-in-an-earth-fixed-frame", dict(w, held_in=fixed, event=str(p.date), label=info, expected=exp,
+                                                                                                   g_before=before, g_after=after,
+                                                                                                   r_km=float(np.linalg.norm(probe.arr(p.copy(form="cartesian"))[:3])) / 1e3),
+                   f"ephemeris held in {fixed}: event at {p.date} labelled {info!r}, the watched quantity goes {'up' if up else 'down'} ({exp!r})")
 
 
 def run_case(ctx, job, idx, rng, st):
     if job["name"] == "long-steps":
-        return long_step_case(ctx, job, idx, rng, st)
+        long_step_case(ctx, job, idx, rng, st)
+        return
     from beyond.dates import Date, timedelta
     from beyond.propagators import listeners as L
 
@@ -798,7 +851,10 @@ def run_case(ctx, job, idx, rng, st):
     tspan = timedelta(seconds=span)
     stats = {"events": 0, "judged_change": 0, "judged_nochange": 0}
 
-    def mkenv(direction, tag, native_=native):
+    cur = {"native": native}
+
+    def mkenv(direction, tag, native_=None):
+        native_ = native_ or cur["native"]
         w = {"iteration": tag, "prop": prop, "base_prop": base_prop, "propagator": pd, "orbit": oc, "cart0": cart, "epoch": str(dt),
              "frame0": native_, "step_s": step, "span_s": span, "direction": direction}
         return Env(st, native_, d0, direction, w)
@@ -813,6 +869,13 @@ def run_case(ctx, job, idx, rng, st):
         emethod = "linear" if rng.random() < 0.12 else "lagrange"
         ephem = orb.ephem(start=date, stop=tspan + timedelta(seconds=estep), step=timedelta(seconds=estep))
         ephem.method = emethod
+        if idx % 3 == 1:
+            # the ephemeris is held in an Earth-fixed frame (a ground-track product): the events are those of the same
+            # trajectory, their labels those of the same crossings
+            ephem.frame = rng.choice(["ITRF", "PEF"])
+            cur["native"] = ephem.frame.name
+            pd.update(ephem_frame=cur["native"])
+            ctx.count("ephem:held-in-an-earth-fixed-frame")
         pd.update(ephem_step=estep, ephem_method=emethod)
         mode = rng.choice(["range", "native-step", "dates-list"])
         ctx.count(f"ephem:{emethod}")
